@@ -1,7 +1,8 @@
 """C09 - generation is deterministic across processes (engine P).
 
 The "nodes" are fresh interpreters; a configuration is
-(PYTHONHASHSEED, ASLR off via `setarch -R`, environment padding length).
+(PYTHONHASHSEED, ASLR off via `setarch -R`, environment padding length,
+allocator = pymalloc | malloc).
 For every generated document every configuration must produce byte-identical
 module text, JSON text and class names; a subset is also run through the real
 command line and stdout compared byte for byte.
@@ -45,7 +46,7 @@ ASSUMPTIONS = [
 ]
 
 TITLES = ["Item", "Thing", "thing", "Thing Model", "ThingModel", "item", "Node"]
-PROPS = ["a", "b", "c", "value", "name", "x-1", "class", "id"]
+PROPS = ["a", "b", "c", "value", "name", "x-1", "x_1", "class", "id", "$ref_like", "1st"]
 
 
 # --------------------------------------------------------------------------
@@ -71,6 +72,10 @@ class DocGen:
                     {"type": "null"},
                     {"type": "string", "maxLength": rng.randint(1, 9)},
                     {"type": ["string", "integer"]},
+                    {"type": ["null", "boolean", "number"], "default": None},
+                    {"type": "array", "items": {"type": "string"}, "uniqueItems": True},
+                    {"type": "string", "enum": ["b", "a", "c"]},
+                    {"const": {"k": [1, 2]}},
                     {"type": "string", "format": "uuid"},
                     {"type": "integer", "default": rng.randint(0, 9)},
                     {"enum": [1, "a", None]},
@@ -93,12 +98,30 @@ class DocGen:
             out["title"] = rng.choice(TITLES)
         elif mode == "unique":
             out["title"] = f"Uniq{self.uid}"
-        if rng.random() < 0.4:
-            out["required"] = rng.sample(list(props), 1)
+        if rng.random() < 0.5:
+            # declared and undeclared names: undeclared required names become
+            # synthesised properties, in the order the parser visits them
+            pool = list(props) + ["req_a", "req_b", "req_c", "req-d", "zeta", "alpha"]
+            out["required"] = rng.sample(pool, rng.randint(1, 4))
+            if len(out["required"]) >= 2:
+                self.features.add("multi_required")
         if rng.random() < 0.15:
             out["additionalProperties"] = rng.choice([False, self.scalar()])
+        if rng.random() < 0.15:
+            out["patternProperties"] = {
+                pat: self.scalar()
+                for pat in rng.sample(["^x_", "_id$", "^[a-z]+$", "\\d"], rng.randint(1, 3))
+            }
         if rng.random() < 0.1:
-            out["patternProperties"] = {"^x_": self.scalar()}
+            names = list(props)
+            out["dependencies"] = {
+                rng.choice(names): rng.sample(["req_a", "req_b", "zeta"] + names, 2),
+                "dep_k": self.scalar(),
+            }
+        if rng.random() < 0.08:
+            out["propertyNames"] = {"maxLength": rng.randint(3, 9)}
+        if rng.random() < 0.08:
+            out["minProperties"] = rng.randint(0, 2)
         if rng.random() < 0.1:
             out["description"] = "some description"
         return out
@@ -287,6 +310,8 @@ def child_env(config):
         "LANG": "C.UTF-8",
         "VERIF_PAD": "p" * config["pad"],
     }
+    if config.get("malloc"):
+        env["PYTHONMALLOC"] = config["malloc"]
     return env
 
 
@@ -317,7 +342,12 @@ def choose_configs(seed, count):
         if cand not in chosen:
             chosen.append(cand)
     configs = [
-        {"hashseed": hs, "pad": rng.choice([0, 17, 256, 1031, 4099])} for hs in chosen
+        {
+            "hashseed": hs,
+            "pad": rng.choice([0, 17, 256, 1031, 4099, 8192, 20000, 50000, 100000]),
+            "malloc": rng.choice(["", "", "malloc"]),
+        }
+        for hs in chosen
     ]
     return configs, len(orders)
 
@@ -629,7 +659,7 @@ def _check(tier, seed, n_docs, configs, orders_reachable, n_cli, n_cli_conf, wor
         },
         "components": {
             "real": ["statham/* from /repo working tree", "json_ref_dict", "CPython interpreters (one per configuration)", "python -m statham command line"],
-            "seam": ["PYTHONHASHSEED", "setarch -R (ASLR off)", "environment padding"],
+            "seam": ["PYTHONHASHSEED", "setarch -R (ASLR off)", "environment padding", "PYTHONMALLOC"],
             "stub": [],
         },
         "determinism_sample": {"same_configuration_twice_identical": det_ok},
